@@ -212,6 +212,11 @@ type provider struct {
 	sched       func(point string) // scheduling hook (family sched)
 	jwksFail    bool
 	base        string // issuer and endpoint origin; "" = issuerURL
+	// via303: the token endpoint answers a successful grant with "303 See Other" to /token/result and a cookie naming the pending
+	// result (a provider behind a front end that parks responses); the result is handed out once, to whoever presents the cookie
+	via303  bool
+	pending map[string]M
+	pendN   int
 }
 
 func newProvider(ks ...*signKey) *provider {
@@ -282,6 +287,23 @@ func (p *provider) RoundTrip(r *http.Request) (*http.Response, error) {
 			ks = append(ks, k.jwk())
 		}
 		json.NewEncoder(rec).Encode(M{"keys": ks})
+	case r.URL.Path == "/token/hop":
+		rec.Header().Set("Location", "/token/result")
+		rec.WriteHeader(303)
+	case r.URL.Path == "/token/result":
+		var m M
+		if c, err := r.Cookie("tr"); err == nil {
+			p.mu.Lock()
+			m = p.pending[c.Value]
+			delete(p.pending, c.Value)
+			p.mu.Unlock()
+		}
+		if m == nil {
+			rec.WriteHeader(400)
+			json.NewEncoder(rec).Encode(M{"error": "invalid_request", "error_description": "no pending result"})
+			break
+		}
+		json.NewEncoder(rec).Encode(m)
 	case r.URL.Path == "/token":
 		b, _ := io.ReadAll(r.Body)
 		form, _ := url.ParseQuery(string(b))
@@ -308,6 +330,20 @@ func (p *provider) RoundTrip(r *http.Request) (*http.Response, error) {
 			m := M{"id_token": ans.idToken, "access_token": "opaque-access-token", "expires_in": 3600, "token_type": "Bearer"}
 			if ans.refresh != "" {
 				m["refresh_token"] = ans.refresh
+			}
+			if p.via303 {
+				p.mu.Lock()
+				p.pendN++
+				id := fmt.Sprintf("pending-%d", p.pendN)
+				if p.pending == nil {
+					p.pending = map[string]M{}
+				}
+				p.pending[id] = m
+				p.mu.Unlock()
+				rec.Header().Set("Set-Cookie", "tr="+id+"; Path=/")
+				rec.Header().Set("Location", "/token/hop") // (two hops: the front end first, then the place where the result waits)
+				rec.WriteHeader(303)
+				break
 			}
 			json.NewEncoder(rec).Encode(m)
 		case "noidtoken":
